@@ -101,6 +101,8 @@ func descPat(p *ref.Pat) string {
 		return b.String()
 	case "fn":
 		return "<function>"
+	case "backref":
+		return "<back-reference>"
 	case "arr", "listing":
 		xs := []string{}
 		for _, e := range p.Elems {
